@@ -123,6 +123,10 @@ def check_concrete(contract, kwargs, tree):
             n_obl += 1
             discharge(ob, 10000)
             if ob.status == "refuted":
+                # an obligation over uninterpreted matrix terms (svd / qr / inv as opaque kernels) cannot be evaluated on concrete numbers:
+                # its "failure" in concrete mode says nothing about the real code
+                if ob.oid.endswith(".term") or ".term[" in ob.oid:
+                    continue
                 failed.append(ob.oid.split("/", 1)[-1])
 
     class _C:
